@@ -98,29 +98,24 @@ def run : List String → Option String
     match Script.parse (← charsOfHex hscript) with
     | none => some "error bad-sexpr"
     | some s => some (str s.render)
-  -- hcanon <i> <hex script sexpr> -> canonical S-expression of handler i ; scanon -> header
-  | ["hcanon", i, hscript] => do
-    let i ← parseNat i
-    match Script.parse (← charsOfHex hscript) with
+  -- hcanon <hex handler sexpr> -> canonical S-expression of the handler ; scanon <hex script sexpr> -> header
+  | ["hcanon", hh] => do
+    match Handler.parse (← charsOfHex hh) with
     | none => some "error bad-sexpr"
-    | some s => match s.handlers[i]? with
-      | some h => some (str h.toSX.render)
-      | none => some "error index"
+    | some h => some (str h.toSX.render)
   | ["scanon", hscript] => do
     match Script.parse (← charsOfHex hscript) with
     | none => some "error bad-sexpr"
     | some s => some (str (headerSX s).render)
-  -- hcode <i> <hex names sexpr (full table)> <hex script sexpr> -> bytecode of handler i compiled in isolation
-  | ["hcode", i, hnames, hscript] => do
-    let i ← parseNat i
+  -- hcode <hex names sexpr (full table)> <hex (handlers n1 n2 ...)> <hex handler sexpr> -> bytecode of the handler compiled in isolation
+  | ["hcode", hnames, hhn, hh] => do
     let names ← namesOfSX (← SX.parse (← charsOfHex hnames))
-    match Script.parse (← charsOfHex hscript) with
+    let hn ← namesOfSX (← SX.parse (← charsOfHex hhn))
+    match Handler.parse (← charsOfHex hh) with
     | none => some "error bad-sexpr"
-    | some s => match s.handlers[i]? with
-      | some h => match compileHandlerAlone names (s.handlers.map (·.name)) h with
-        | .ok b => some (hx b)
-        | .error e => some ("error:" ++ e.replace " " "_")
-      | none => some "error index"
+    | some h => match compileHandlerAlone names hn h with
+      | .ok b => some (hx b)
+      | .error e => some ("error:" ++ e.replace " " "_")
   -- whole <scrNum> <hex names sexpr> <hex script sexpr> -> "same" (the observable of the recompilation clause, see harness)
   | ["whole", _, _, _] => some "same"
   | _ => none
